@@ -55,6 +55,13 @@ var specs = map[string]propSpec{
 		},
 		Assumptions: refAssumptions("node-sets that are converted to a string or counted inside predicates are flat paths while the known findings KF-A/KF-B are confirmed present"),
 	},
+	"C10": {
+		Units: []unitSpec{
+			{Name: "enum-operator-chains", Test: "TestC10Chains", QuickShards: 4, ThoroughShards: 16},
+			{Name: "rapid-roundtrip-whitespace-abbrev", Test: "TestC10RoundTrip", Rapid: true, QuickChecks: 50000, ThoroughChecks: 600000, QuickShards: 4, ThoroughShards: 12},
+		},
+		Assumptions: append([]string{"the parse tree is observed through the verif-tagged hook VerifParseDump, which renders the tree produced by the unexported parse() without changing it", "the reference for chains is a table-driven precedence-climbing parser over XPath 1.0's tiers"}, commonAssumptions...),
+	},
 	"C11": {
 		Units: []unitSpec{
 			{Name: "rapid-union", Test: "TestC11Rapid", Rapid: true, QuickChecks: 60000, ThoroughChecks: 700000, QuickShards: 4, ThoroughShards: 16},
